@@ -65,6 +65,7 @@ Definition sp_default_of (w : N) (f : N) : N :=   (* f: 0 spd 1 sdf 2 eps 3 sumd
   | 4, 0 => DEF4_samples_per_data | 4, 1 => DEF4_sample_decimate_factor | 4, 2 => DEF4_entries_per_summary | 4, 3 => DEF4_summary_decimate_factor
   | 8, 0 => DEF8_samples_per_data | 8, 1 => DEF8_sample_decimate_factor | 8, 2 => DEF8_entries_per_summary | 8, 3 => DEF8_summary_decimate_factor
   | 16, 0 => DEF16_samples_per_data | 16, 1 => DEF16_sample_decimate_factor | 16, 2 => DEF16_entries_per_summary | 16, 3 => DEF16_summary_decimate_factor
+  | 24, 0 => DEF32_samples_per_data | 24, 1 => DEF32_sample_decimate_factor | 24, 2 => DEF32_entries_per_summary | 24, 3 => DEF32_summary_decimate_factor
   | 32, 0 => DEF32_samples_per_data | 32, 1 => DEF32_sample_decimate_factor | 32, 2 => DEF32_entries_per_summary | 32, 3 => DEF32_summary_decimate_factor
   | 64, 0 => DEF64_samples_per_data | 64, 1 => DEF64_sample_decimate_factor | 64, 2 => DEF64_entries_per_summary | 64, 3 => DEF64_summary_decimate_factor
   | _, _ => 0
@@ -81,9 +82,9 @@ Definition sp_align (d : sigdef) : sigdef :=
   let w := dt_bits (sg_dtype d) in
   let spd0 := sp_dflt w 0 (sg_spd d) in let sdf0 := sp_dflt w 1 (sg_sdf d) in
   let eps0 := sp_dflt w 2 (sg_eps d) in let sumdf0 := sp_dflt w 3 (sg_sumdf d) in
-  let adf := if sg_adf d =? 0 then (if sp_default_of w 0 =? 0 then 0 else DEF32_annotation_decimate_factor) else sg_adf d in
-  let udf := if sg_udf d =? 0 then (if sp_default_of w 0 =? 0 then 0 else DEF32_utc_decimate_factor) else sg_udf d in
-  let mult := (SAMPLE_SIZE_BYTES_MAX * 8) / w in
+  let adf := N.max (if sg_adf d =? 0 then DEF32_annotation_decimate_factor else sg_adf d) SUMMARY_DECIMATE_FACTOR_MIN in
+  let udf := N.max (if sg_udf d =? 0 then DEF32_utc_decimate_factor else sg_udf d) SUMMARY_DECIMATE_FACTOR_MIN in
+  let mult := if w =? 24 then 32 else (SAMPLE_SIZE_BYTES_MAX * 8) / w in   (* a level-1 entry covers a multiple of 256 bits *)
   let sdf := sp_round_up (N.max sdf0 SAMPLE_DECIMATE_FACTOR_MIN) mult in
   let spd1 := N.max spd0 SAMPLES_PER_DATA_MIN in
   let eps1 := N.max eps0 ENTRIES_PER_SUMMARY_MIN in
@@ -137,6 +138,9 @@ Definition fsr_write (s : sigstate) (sid : Z) (samples : list N) : sigstate :=
     end
   end.
 
+(* a definition string must fit one internal string block together with its terminator *)
+Definition str_fits (s : strv) : bool := (N.of_nat (length (str_read s)) + 2 <=? JLS_BUF_STRING_SIZE).
+
 Definition stype_ok_anno (st : N) : bool := (1 <=? st) && (st <=? 3).
 Definition stype_ok_ud (st : N) : bool := (st <=? 3).
 
@@ -145,6 +149,7 @@ Definition wstep (c : content) (o : wop) : content * bool :=
   match o with
   | WSrc d =>
     if (so_id d <? JLS_SOURCE_COUNT) && (match find_src c (so_id d) with None => true | Some _ => false end)
+       && str_fits (so_name d) && str_fits (so_vendor d) && str_fits (so_model d) && str_fits (so_version d) && str_fits (so_serial d)
     then ({| c_sources := c_sources c ++ [d]; c_signals := c_signals c; c_udata := c_udata c |}, true)
     else (c, false)
   | WSig d =>
@@ -154,6 +159,7 @@ Definition wstep (c : content) (o : wop) : content * bool :=
        && ((sg_type d =? JLS_SIGNAL_TYPE_FSR) || (sg_type d =? JLS_SIGNAL_TYPE_VSR))
        && dt_valid (sg_dtype d)
        && ((sg_type d =? JLS_SIGNAL_TYPE_VSR) || negb (sg_rate d =? 0))
+       && str_fits (sg_name d) && str_fits (sg_units d)
     then ({| c_sources := c_sources c; c_signals := c_signals c ++ [new_sig (sp_align d)]; c_udata := c_udata c |}, true)
     else (c, false)
   | WFsr sig sid samples =>
@@ -186,9 +192,10 @@ Definition wstep (c : content) (o : wop) : content * bool :=
     end
   | WUd u =>
     if stype_ok_ud (ud_stype u)
-    then ({| c_sources := c_sources c; c_signals := c_signals c;
-             c_udata := c_udata c ++ [{| ud_meta := N.land (ud_meta u) 4095; ud_stype := ud_stype u;
-                                         ud_data := if ud_stype u =? 0 then [] else ud_data u |}] |}, true)
+    then (if ud_stype u =? 0 then (c, true)     (* storage type INVALID: an empty placeholder chunk, not an item *)
+          else ({| c_sources := c_sources c; c_signals := c_signals c;
+                   c_udata := c_udata c ++ [{| ud_meta := N.land (ud_meta u) 4095; ud_stype := ud_stype u;
+                                               ud_data := ud_data u |}] |}, true))
     else (c, false)
   | WFlush => (c, true)
   end.
